@@ -10,7 +10,10 @@ for name in $names; do
   id=${name%%-*}
   git -C /repo worktree remove --force $WT 2>/dev/null
   git -C /repo worktree add -q $WT HEAD || exit 2
-  if ! git -C $WT apply /verif/seeded/$name/patch.diff 2>/tmp/apply.err; then
+  patch=/verif/seeded/$name/patch.diff
+  [ -f /verif/seeded/$name/patch.rebased.diff ] && patch=/verif/seeded/$name/patch.rebased.diff
+  if grep -q '"obsolete"' /verif/seeded/$name/meta.json; then echo "$name: OBSOLETE (see meta.json)" | tee -a seeded/RESULTS.txt; continue; fi
+  if ! git -C $WT apply $patch 2>/tmp/apply.err; then
     echo "$name: PATCH-DOES-NOT-APPLY $(head -1 /tmp/apply.err)" | tee -a seeded/RESULTS.txt
     continue
   fi
